@@ -362,13 +362,18 @@ def extents(r, node, events, path, out):
             extents(r[2], kids["data"], events, path, out)
 
 
-def run_recipe(ctx, rng, r):
+def run_recipe(ctx, rng, r, d=None, asymmetric_ok=False, pre=None):
+    """d: a pre-built construct object for the recipe (shared sub-construct objects, export histories); asymmetric_ok: compare the
+    schema with parse also where parse does not give back the value that was built (documented asymmetric options); pre: a
+    callable run before the export (earlier exports in the same process)"""
     import construct as C
     try:
-        d = mk(r)
+        d = mk(r) if d is None else d
     except Exception:
         ctx.count("recipe_not_constructible")
         return
+    if pre is not None:
+        pre()
     case = {"recipe": r}
     try:
         schema = json.loads(d.export_ksy())
@@ -405,7 +410,7 @@ def run_recipe(ctx, rng, r):
         # only canonical situations are compared: the construct itself must read back what was built
         from .c01 import covers
         from ..libmodel import loosen
-        if not covers(loosen(norm(cv)), loosen(norm(v))):
+        if not asymmetric_ok and not covers(loosen(norm(cv)), loosen(norm(v))):
             ctx.count("skipped_value_not_symmetric")
             continue
         ctx.ev()
@@ -598,6 +603,27 @@ def run(ctx):
             for _ in range(ctx.pick(3, 10)):
                 run_recipe(ctx, rng, ["Struct", [["fa", F], ["fb", F], ["n", B], ["x", ["If", cond, ["name", "Int16ub"]]], ["t", B]]])
                 run_recipe(ctx, rng, ["Struct", [["fa", F], ["fb", F], ["n", B], ["x", ["IfThenElse", cond, ["name", "Int16ub"], ["Bytes", 3]]], ["t", B]]])
+        # a terminator left in the stream for the next member (consume=False: parse does not give back what was built, the schema
+        # must still describe what parse does), at top level, in regions at offset 0 and behind headers
+        GBs = ["name", "GreedyBytes"]
+        record = ["Struct", [["name", ["NullTerminated", GBs, tag(b"\x00"), False, False, True]], ["sep", B], ["tail", GBs]]]
+        short = ["Struct", [["name", ["NullTerminated", GBs, tag(b"\x00"), False, False, True]], ["sep", B]]]
+        for rr in (record, ["Struct", [["rec", ["FixedSized", 12, record]], ["after", B]]], ["Struct", [["hdr", ["name", "Int16ub"]], ["rec", ["Prefixed", B, record, False]], ["crc", B]]],
+                   ["Struct", [["magic", ["Const", tag(b"RIFF"), None]], ["rec", ["FixedSized", 13, record]], ["end", B]]], ["Struct", [["h", B], ["a", ["Prefixed", B, short, False]], ["b", ["Prefixed", B, short, False]]]]):
+            for _ in range(ctx.pick(4, 20)):
+                run_recipe(ctx, rng, rr, asymmetric_ok=True)
+        # one Enum object shared by two formats that are exported one after the other (what the first export leaves behind in the
+        # object must not change the second schema)
+        import construct as C
+        shared = C.Enum(C.Byte, text=1, binary=2)
+        first = C.Struct("kind" / shared, "n" / C.Byte)
+        second = C.Struct("state" / C.Enum(C.Byte, busy=1, idle=2), "kind" / shared, "n" / C.Byte)
+        r1 = ["Struct", [["kind", ["Enum", B, [["text", 1], ["binary", 2]]]], ["n", B]]]
+        r2 = ["Struct", [["state", ["Enum", B, [["busy", 1], ["idle", 2]]]], ["kind", ["Enum", B, [["text", 1], ["binary", 2]]]], ["n", B]]]
+        for _ in range(3):
+            run_recipe(ctx, rng, r1, d=first)
+            run_recipe(ctx, rng, r2, d=second, pre=lambda: first.export_ksy())
+            run_recipe(ctx, rng, r1, d=first, pre=lambda: second.export_ksy())
         # fixed-size strings under every spelling of the encoding name
         for enc in ("utf8", "utf-8", "UTF8", "Utf_8", "ascii", "ASCII", "us-ascii" if False else "Ascii", "latin1" if False else "utf_8"):
             for n in (3, 5):
